@@ -557,6 +557,11 @@ impl OpsWorld {
             WriteVec | WriteStatic | WriteString | WriteBoxed | WriteArc | WriteVectored2 | WriteVectoredTuple | Send
             | SendZc | SendTo | SendToZc | SendVectored | SendVectoredZc | SpliceTo | SpliceFrom | SendToVectored => format!("n:{}", out.res),
             ReadPool | RecvPool | MultishotRead | MultishotRecv => format!("buf:{}", hx(&out.data)),
+            RecvFromPool => format!("buf:{}:from:{}:flags:0", hx(&out.data), addr()),
+            OpenExtract => format!("fd:File:{}:path:/verif-simk/xfile{nth}", out.res),
+            CreateDirExtract => "path:/verif-simk/xdir".to_string(),
+            RenameExtract => "paths:/verif-simk/xfrom>/verif-simk/xto".to_string(),
+            RemoveExtract => "path:/verif-simk/xgone".to_string(),
             // Accepting on a direct descriptor yields direct descriptors.
             Accept if base_direct => format!("fd:Direct:{}:from:{}", out.res, addr()),
             AcceptNoAddr | MultishotAccept if base_direct => format!("fd:Direct:{}", out.res),
